@@ -42,7 +42,7 @@ def cli_slice(ctx, path, req, limit, serial, outfile, cn, pos):
         argv += ["--position=" + repr(float(pos))]
     if serial:
         argv += ["-s"]
-    o = run_tool(ctx, cli.main, cwd=ctx.scratch, argv=argv, label=f"mandoline {argv[1:]}")
+    o = run_tool(ctx, cli.main, argv=argv, label=f"mandoline {argv[1:]}")
     if o.ok:
         with np.load(outfile + ".npz", allow_pickle=True) as z:
             o.value = {k: z[k] for k in z.files}
@@ -54,8 +54,9 @@ def run_case(ctx):
     common.draw_env(ctx)
     common.prelude(ctx)
     m = mand.designed_world(src)
-    path, _ = common.materialise(ctx, m)
     cn = src.draw("normal", 0, 2)
+    path, hcwd, _abs, hmode = common.history_materialise(
+        ctx, m, lambda p: [slice_call(ctx, p, ["rnd", "ext"], None, ser, "return", None, cn, None) for ser in (True, False)])
     limit = src.draw("limit.v", 0, m.nlev - 1) if src.flag("limit") else None
     L = m.nlev - 1 if limit is None else limit
     ax = AX[cn]
